@@ -865,16 +865,16 @@ func TestCheck(t *testing.T) {
 				"checked for pairs (thorough, unwrapped half: ALL ordered pairs of instances; otherwise: every instance x the canonical and the alternative-children build of every value, wrapped and unwrapped = pair_columns): symmetry, same value => Equal, different TLA+ value => not Equal, Equal => same Hash, and agreement of \\in, function application, hashmap.Get, immutable.Map.Get with Equal (for all pairs of canonical builds and all pairs that are Equal, expected Equal or hash-colliding); " +
 				"transitivity for all triples (instance, column, column) via the Equal matrix (Equal must be exactly the connected components of its own graph); the same again with every value and sub-value wrapped by WrapCausal (child process). " +
 				"evaluations = instances + ordered pairs (both halves); distinct_nontrivial = number of distinct values (distinct canonical texts) in the universe",
-			"samples":               pst.Samples,
-			"exhaustive":            pst.Complete && co.Stats.Complete,
-			"plain_half":            pst,
-			"causal_half":           co.Stats,
-			"causal_wrapping_live":  co.Live,
-			"depth_bound":           3,
-			"max_collection_size":   2,
-			"tlc_used":              env.Thorough(),
-			"divergences":           0,
-			"not_covered":           "values deeper than 3 or collections larger than 2; strings longer than 3 characters; non-ASCII strings (outside the property)",
+			"samples":              pst.Samples,
+			"exhaustive":           pst.Complete && co.Stats.Complete,
+			"plain_half":           pst,
+			"causal_half":          co.Stats,
+			"causal_wrapping_live": co.Live,
+			"depth_bound":          3,
+			"max_collection_size":  2,
+			"tlc_used":             env.Thorough(),
+			"divergences":          0,
+			"not_covered":          "values deeper than 3 or collections larger than 2; strings longer than 3 characters; non-ASCII strings (outside the property)",
 		}
 		return res
 	})
